@@ -32,6 +32,7 @@ type workload struct {
 	// ReadMember: for object reads, which member holds the collection ("likes"/"shares"/"")
 	ReadMember     map[int][]string
 	DupActivity    string // activity id delivered several times ("" if none)
+	DupInboxes     []string // inboxes it is delivered to (default: alice's)
 	ExpectDeadlock bool
 	OutboxIDs      bool // ids are issued per run: compare the outbox with the returned Location headers
 	seqOutcomes    []map[string][]string
@@ -63,6 +64,24 @@ func workloads(threeWay bool) []workload {
 		sc.Requests = nil
 		w := workload{Name: "W1.duplicate-" + variant, Sc: sc, Cols: []string{"inbox:" + aliceIn(), "likes:" + L + "/notes/1"}, DupActivity: act["id"].(string), Adds: map[int][][2]string{}}
 		for i := 0; i < n; i++ {
+			sc.Requests = append(sc.Requests, sim.PostInboxReq(aliceIn(), withCtx(act)))
+		}
+		ws = append(ws, w)
+	}
+	// W16 one forwarding-eligible activity delivered to two inboxes of this server at once
+	// (and a second time to the first): once in each inbox, forwarded at most once
+	{
+		bobIn := bob() + "/inbox"
+		sc := inboxScenario(nil, func(sc *sim.Scenario) {
+			ownedNote(sc, 1, nil)
+			sc.Store[alice()+"/followers"] = M{"@context": AS, "type": "Collection", "id": alice() + "/followers", "items": A{dave()}}
+			sc.Cfg.FedWrapped = true
+		})
+		act := M{"type": "Create", "id": R1 + "/act/dup16", "actor": carol(), "to": A{alice() + "/followers"}, "object": note(R1+"/notes/r16", M{"inReplyTo": L + "/notes/1"})}
+		sc.Requests = nil
+		w := workload{Name: "W16.duplicate-two-inboxes", Sc: sc, Cols: []string{"inbox:" + aliceIn(), "inbox:" + bobIn}, DupActivity: act["id"].(string), DupInboxes: []string{aliceIn(), bobIn}, Adds: map[int][][2]string{}}
+		sc.Requests = append(sc.Requests, sim.PostInboxReq(aliceIn(), withCtx(act)), sim.PostInboxReq(bobIn, withCtx(act)))
+		if threeWay {
 			sc.Requests = append(sc.Requests, sim.PostInboxReq(aliceIn(), withCtx(act)))
 		}
 		ws = append(ws, w)
@@ -204,6 +223,25 @@ func workloads(threeWay bool) []workload {
 		if !threeWay {
 			ws = append(ws, w)
 		}
+	}
+	// W12b Remove of one member || Add of another (|| Remove of a third) on one owned collection:
+	// every order leaves the same members, so a stale write-back is a lost update
+	for _, ordered := range []bool{false, true} {
+		sc := inboxScenario(nil, func(sc *sim.Scenario) {
+			ownedCollection(sc, "c1", ordered, R1+"/notes/victim", R2+"/notes/keep", R1+"/notes/victim2")
+		})
+		sc.Requests = nil
+		name := "W12b.remove-vs-add-other-member"
+		if ordered {
+			name += ".ordered"
+		}
+		w := workload{Name: name, Sc: sc, Cols: []string{"col:" + L + "/collections/c1", "inbox:" + aliceIn()}, Adds: nil}
+		sc.Requests = append(sc.Requests, sim.PostInboxReq(aliceIn(), withCtx(M{"type": "Remove", "id": R1 + "/act/w12b-rm", "actor": carol(), "object": R1 + "/notes/victim", "target": L + "/collections/c1"})))
+		sc.Requests = append(sc.Requests, sim.PostInboxReq(aliceIn(), withCtx(M{"type": "Add", "id": R1 + "/act/w12b-add", "actor": carol(), "object": R1 + "/notes/added", "target": L + "/collections/c1"})))
+		if threeWay {
+			sc.Requests = append(sc.Requests, sim.PostOutboxReq(aliceOut(), withCtx(M{"type": "Remove", "actor": alice(), "to": carol(), "object": R1 + "/notes/victim2", "target": L + "/collections/c1"})))
+		}
+		ws = append(ws, w)
 	}
 	// W13 federated Follow with auto-accept (the Accept goes into the outbox) || client POST to the same outbox
 	{
@@ -501,14 +539,20 @@ func judgeExecution(r *verdict.Run, w workload, er execResult, seqCols map[strin
 	}
 	// duplicates: once in the inbox, side effects at most once, forwarded at most once
 	if w.DupActivity != "" {
-		n := 0
-		for _, id := range got["inbox:"+aliceIn()] {
-			if id == w.DupActivity {
-				n++
-			}
+		boxes := w.DupInboxes
+		if len(boxes) == 0 {
+			boxes = []string{aliceIn()}
 		}
-		if n != 1 {
-			viol("duplicate-in-inbox", "pub.(*sideEffectActor).addToInboxIfNew", w.Name, fmt.Sprintf("activity appears %d times in the inbox", n))
+		for _, box := range boxes {
+			n := 0
+			for _, id := range got["inbox:"+box] {
+				if id == w.DupActivity {
+					n++
+				}
+			}
+			if n != 1 {
+				viol("duplicate-in-inbox", "pub.(*sideEffectActor).addToInboxIfNew", w.Name, fmt.Sprintf("activity appears %d times in the inbox %s", n, box))
+			}
 		}
 		cbs, fwd := 0, 0
 		for _, e := range res.Log {
@@ -519,7 +563,7 @@ func judgeExecution(r *verdict.Run, w workload, er execResult, seqCols map[strin
 				fwd++
 			}
 		}
-		if cbs > 1 {
+		if cbs > len(boxes) {
 			viol("duplicate-side-effects", "pub.(*sideEffectActor).PostInbox", w.Name, fmt.Sprintf("side-effect callback ran %d times for one activity id", cbs))
 		}
 		if fwd > 1 {
